@@ -4,7 +4,7 @@
 set -e
 cd "$(dirname "$0")"
 export GOFLAGS=-mod=mod GOPROXY=off GOSUMDB=off GOTOOLCHAIN=local
-mkdir -p .work/bin
+mkdir -p .work/bin lean/GA/Generated
 cp /repo/go.sum harness/go.sum
 (cd extract && go build -o ../.work/bin/extract .)
 .work/bin/extract -repo /repo > lean/GA/Generated/Facts.lean.tmp && mv lean/GA/Generated/Facts.lean.tmp lean/GA/Generated/Facts.lean
